@@ -69,6 +69,7 @@ def run(ctx):
     ctx.rule("C05.1", "compact's call closure reads every data field of L0Run and reaches BTree::delete")
     ctx.rule("C05.2", "deleted-node set of a snapshot derives from persisted state; segment builder sees older segments or CsrSegment carries tombstones")
     ctx.rule("C05.3", "edge-less CsrSegment literals keep sentinel reverse offsets")
+    ctx.rule("C05.4", "a property removed in a run masks the value stored by an earlier compaction (store fall-through needs a 3-state overlay result)")
 
     # ---- clause 1 ---------------------------------------------------------
     adt = ctx.adt(L0RUN)
@@ -188,3 +189,35 @@ def run(ctx):
                    "segment without edges is built with an empty `in_offsets`: incoming_neighbors(0) indexes in_offsets[0] out of bounds "
                    "after a compaction / bulk load that produced no relationships", "%s:%d" % (b.file, line),
                    sample={"fn": b.id, "literal": n})
+
+    # ---- clause 4 ---------------------------------------------------------
+    # StorageSnapshot::{node,edge}_property / _properties consult the run overlay and then fall through to the property store.
+    # The overlay knows three states (value / removed / nothing); if its result type is a plain Option the `removed` state is
+    # lost at that boundary and a removed (or null-ed) property re-appears from the store as soon as it has been compacted once.
+    SS = "nervusdb_storage::api::StorageSnapshot"
+    n4 = 0
+    for i, b in sorted(F.bodies.items()):
+        if b.kind == "closure" or b.self_ty != SS or b.impl_trait != "nervusdb_api::GraphSnapshot":
+            continue
+        stores = [c for c in b.calls() if c.name.startswith("nervusdb_storage::read_path_property_store::") and c.name.endswith("_from_store")]
+        if not stores:
+            continue
+        overlay = [c for c in b.calls() if c.name.startswith("nervusdb_storage::snapshot::Snapshot::") and "propert" in c.name]
+        n4 += 1
+        ctx.analysed_fns.add(i)
+        three_state = False
+        for o in overlay:
+            rty = b.local_ty(o.dest[0])
+            if not rty.startswith("core::option::Option<") or "Removed" in rty or "Tombstone" in rty:
+                three_state = True
+        # alternative repair: the store call receives the removed-key set
+        passes_removed = any(any("BTreeSet" in b.local_ty(l) or "HashSet" in b.local_ty(l) for l in [a[1][0] for a in s.args if a[0] in ("c", "m")]) for s in stores)
+        consults = any(("tombston" in c.name.lower() or "removed" in c.name.lower()) and "propert" in c.name.lower() for c in b.calls())
+        three_state = three_state or consults
+        m = i.split("::")[-1]
+        ctx.instance("C05.4", "%s: overlay result %s, store fall-through %s" % (m, [b.local_ty(o.dest[0])[:60] for o in overlay], [s.name.split("::")[-1] for s in stores]))
+        ctx.oblige(three_state or passes_removed, "C05.4", "StorageSnapshot::%s:removed-falls-through-to-store" % m,
+                   "the run overlay reports a removed property the same way as an unknown one (plain Option), so the read falls through to the "
+                   "property store: REMOVE n.p / SET n.p = null has no visible effect once the old value has been compacted", b.file,
+                   sample={"method": m, "overlay": [o.name for o in overlay], "store": [s.name for s in stores]})
+    ctx.floor("C05.4", "snapshot property readers with store fall-through", n4, 4)
